@@ -7,12 +7,14 @@ C16-parts   compute_form_with_arity + PartExtracter are lifted as a whole (sa/pa
             exact identities on the lifted terms - so that F = lhs(F) - rhs(F) and functional(F) is the
             argument-free part.  Variables wrapping mixed-arity expressions, indexed and restricted
             arguments, quotients and nested sums are in the family.
-C16-sign    compute_form_lhs uses arity 2, compute_form_rhs the *negated* arity-1 part, functional arity 0
-            (AST facts on the wrappers).
-C16-adj     compute_form_adjoint conjugates every integrand and swaps both number and part of the two
-            arguments; the ordering guards raise.
-C16-act     compute_form_action replaces the last (highest numbered) argument; compute_energy_norm is the
-            action applied twice.
+C16-sign    compute_form_lhs / _rhs / _functional interpreted from source over recording stand-ins (plain forms and
+            mixed-space forms with any subset of parts): lhs = part(F, 2), rhs = -part(F, 1) (block-wise sums for
+            mixed spaces), functional = part(F, 0).
+C16-adj     compute_form_adjoint interpreted the same way: conj(F[v, u := the same spaces with number and part of
+            the other argument]) per block; non-bilinear forms and supplied arguments in the old order are refused.
+C16-act     compute_form_action replaces the highest numbered argument - for mixed spaces every part of it, each by
+            the coefficient *of that part*, whichever parts occur; without coefficient by fresh ones;
+            compute_energy_norm = action(action(a, c), c) on bilinear forms over one space (sa/rules/c16_wiring.py).
 C16-key     shared MEMO-KEY rule over formtransformations.py (e.g. a label-keyed memo of extracted parts).
 """
 
@@ -157,53 +159,10 @@ def run(ctx) -> Report:
                 rep.violation("C16-parts", pcls, tag, f"the {tag} does not have the meaning of the {'bilinear' if arity == 2 else ('linear' if arity == 1 else 'argument-free')} part of the integrand ({how}): {wit}", witness=wit)
     if n_ok < 40:
         raise AnalysisError(f"only {n_ok} part extractions compared equal: family vacuous")
-    # ---- wrappers ----------------------------------------------------------------------------
-    def fdef(name):
-        return prog.get_function(MOD, name)
+    # ---- wrappers: interpreted from source with recording stand-ins (sa/rules/c16_wiring.py) ----------------
+    from .c16_wiring import run_wiring
 
-    lhs, rhs, fun = fdef("compute_form_lhs"), fdef("compute_form_rhs"), fdef("compute_form_functional")
-
-    def returns(fi):
-        return [n for n in ast.walk(fi.node) if isinstance(n, ast.Return)]
-
-    r0 = [norm(r.value) for r in returns(lhs)]
-    (rep.ok("C16-sign", lhs, "lhs = compute_form_with_arity(form, 2)") if "compute_form_with_arity(form, 2)" in r0 else rep.violation("C16-sign", lhs, "return of compute_form_lhs", f"lhs does not return the arity-2 part (returns {r0})"))
-    r1 = [norm(r.value) for r in returns(rhs)]
-    neg_ok = any(t.replace(" ", "") in ("-compute_form_with_arity(form,1)", "-1*compute_form_with_arity(form,1)", "0-compute_form_with_arity(form,1)") for t in r1)
-    (rep.ok("C16-sign", rhs, "rhs = -compute_form_with_arity(form, 1)") if neg_ok else rep.violation("C16-sign", rhs, "return of compute_form_rhs", f"rhs is not the negated arity-1 part (returns {r1})"))
-    if "-rhs" in [t.replace(" ", "") for t in r1]:
-        rep.ok("C16-sign", rhs, "block version also negated")
-    else:
-        rep.violation("C16-sign", rhs, "block return of compute_form_rhs", "the mixed-function-space branch of rhs is not negated")
-    r2 = [norm(r.value) for r in returns(fun)]
-    (rep.ok("C16-sign", fun, "functional = arity 0") if "compute_form_with_arity(form, 0)" in r2 else rep.violation("C16-sign", fun, "return of compute_form_functional", f"functional returns {r2}"))
-    # adjoint
-    adj = fdef("compute_form_adjoint")
-    src = norm(adj.node)
-    rets = [norm(r.value).replace(" ", "") for r in returns(adj)]
-    want_ret = "map_integrands(Conj,replace(form,{v:reordered_v,u:reordered_u}))"
-    (rep.ok("C16-adj", adj, "adjoint = Conj of the form with both arguments replaced") if want_ret in rets else rep.violation("C16-adj", adj, "return of compute_form_adjoint", f"adjoint does not conjugate the integrands of the form with v,u replaced (returns {rets[-1:]})"))
-    swaps = ["reordered_u = Argument(u.ufl_function_space(), number=v.number(), part=v.part())", "reordered_v = Argument(v.ufl_function_space(), number=u.number(), part=u.part())"]
-    for sw in swaps:
-        n = src.count(sw)
-        (rep.ok("C16-adj", adj, f"{sw.split(' = ')[0]} takes number and part of the other argument") if n >= 2 else rep.violation("C16-adj", adj, sw.split(" = ")[0], f"`{sw}` (swap of both number and part) not found in both branches"))
-    guards = [n for n in ast.walk(adj.node) if isinstance(n, ast.If) and any(isinstance(b, ast.Raise) for b in n.body)]
-    tests = [norm(g.test).replace(" ", "") for g in guards]
-    for need in ("reordered_u.number()>=reordered_v.number()", "reordered_u.part()!=v.part()", "reordered_v.part()!=u.part()", "v.number()>=u.number()", "len(arguments)!=2"):
-        (rep.ok("C16-adj", adj, f"guard `{need}` raises") if need in tests else rep.violation("C16-adj", adj, f"guard {need}", f"the guard `{need}` no longer raises"))
-    # action / energy norm
-    act = fdef("compute_form_action")
-    asrc = norm(act.node)
-    if "u = arguments[-1]" in asrc and "replace(form, {u: coefficient})" in asrc:
-        rep.ok("C16-act", act, "action replaces arguments[-1] (the highest numbered argument)")
-    else:
-        rep.violation("C16-act", act, "argument selection in compute_form_action", "action no longer replaces the last (highest numbered) argument of the form")
-    en = fdef("compute_energy_norm")
-    esrc = norm(en.node).replace(" ", "")
-    if "returnaction(action(form,coefficient),coefficient)" in esrc and "len(arguments)!=2" in esrc:
-        rep.ok("C16-act", en, "energy norm = action(action(a, f), f) on bilinear forms only")
-    else:
-        rep.violation("C16-act", en, "compute_energy_norm", "energy norm is not the action applied twice with the same coefficient")
+    run_wiring(ctx, rep)
     # Form.arguments() is sorted by number (so arguments[-1] is the highest)
     rep.require_min("C16-parts", 40)
     rep.require_min("C16-sign", 4)
@@ -211,7 +170,8 @@ def run(ctx) -> Report:
     rep.explanation = (
         f"compute_form_with_arity/PartExtracter lifted on {len(fam)} structured integrands affine in the trial function; the arity-2/1/0 parts "
         "were compared exactly with e - e[u:=0], e[u:=0] - e[u:=0,v:=0], e[u:=0,v:=0]; sign/arity of the lhs/rhs/functional wrappers, "
-        "adjoint (conjugation, swap of number and part, guards) and action/energy-norm wiring checked on the AST."
+        "lhs / rhs / functional / action / adjoint / energy_norm interpreted from source over recording stand-ins (plain and mixed-space "
+        "forms with any subset of parts, with and without supplied coefficients / arguments) and the requested combination compared with the algebraic definition."
     )
     rep.assumptions = ["forms whose terms depend on different argument sets of equal size are rejected by PartExtracter (not in the family)", "mixed-function-space block paths (extract_blocks) are covered by C22 only"]
     from ..memokey import memo_rule
